@@ -316,7 +316,7 @@ theorem rtOf_first_match (m : KMaps) (i : RouteIn) (dom : List Bool) (wan : Bool
   have hdom := h.domain
   rw [hk] at hdom
   exact rtOf_decision m i start _ _ ubm
-    (by rw [hm]; exact (installGen_installed start _ _ m0 h.rulesFit h.triesFit).with_domain dm)
+    (by rw [hm]; exact (installGen_installed start _ _ m0 h.rulesFit h.triesFit h.entriesOK).with_domain dm)
     h.triesWF pktOK hdom h.entriesOK _ hu
 
 /-- an event whose rule program is the one installed in the maps `x.1` at that moment -/
